@@ -192,7 +192,55 @@ fn seed_asset(rng: &mut Rng) -> Vec<u8> {
     b.serialize().unwrap()
 }
 
+/// A *valid* bin-archive container around arbitrary payload: any data length (odd sizes, unaligned
+/// tails), bytes biased towards the values readers branch on (0x00, 0x01, 0xFF, ASCII, flag-like
+/// words), strings / pointers on random cells and the labels the layered readers look up, at
+/// random addresses.  Every layered reader (text, arc, aset, asset) is then run on a container it can
+/// open, so its own loops see arbitrary contents instead of dying in `BinArchive::from_bytes`.
+fn seed_container(rng: &mut Rng, endian: Endian) -> Vec<u8> {
+    let mut a = BinArchive::new(endian);
+    let size = match rng.below(4) {
+        0 => rng.below(12) as usize,
+        1 => (rng.below(16) * 4) as usize,
+        _ => rng.below(80) as usize,
+    };
+    a.allocate_at_end(size);
+    let style = rng.below(5);
+    for i in 0..size {
+        let b = match style {
+            0 => 0u8,
+            1 => *rng.pick(&[0u8, 0, 0, 1, 0xFF, 0x61, 0x80]),
+            2 => rng.next() as u8,
+            3 => *rng.pick(&[0x61u8, 0x62, 0x00, 0x30, 0xD8, 0xDC, 0x3D, 0xDE]), // UTF-16 surrogate halves included
+            _ => if rng.chance(1, 6) { 0 } else { 0x41 + (rng.below(26) as u8) },
+        };
+        a.write_u8(i, b).unwrap();
+    }
+    // flag-like / count-like words on some cells
+    for c in 0..(size / 4) {
+        match rng.below(8) {
+            0 => a.write_u32(c * 4, *rng.pick(&[0u32, 1, 2, 3, 0xFF, 0x100, 0x101, 0xFFFF_FFFF, 0x8000_0000, 7, 0x1F])).unwrap(),
+            1 => a.write_string(c * 4, Some(&word(rng))).unwrap(),
+            2 => a.write_pointer(c * 4, Some(rng.below(size as u64 + 1) as usize)).unwrap(),
+            _ => {}
+        }
+    }
+    let names = ["Count", "Info", "AnimClipNameTable", "K", "MID_A", "T"];
+    for _ in 0..rng.below(4) {
+        let addr = rng.below(size as u64 + 1) as usize;
+        let _ = a.write_label(addr, *rng.pick(&names));
+    }
+    if size >= 4 && rng.chance(1, 2) {
+        let _ = a.write_label(0, *rng.pick(&names));
+    }
+    a.serialize().unwrap()
+}
+
 pub fn seed_file(entry: &str, rng: &mut Rng) -> Vec<u8> {
+    if entry != "pack" && rng.chance(1, 3) {
+        let e = if entry.ends_with("BE") { Endian::Big } else { Endian::Little };
+        return seed_container(rng, e);
+    }
     match entry {
         "binLE" => seed_bin(rng, Endian::Little),
         "binBE" => seed_bin(rng, Endian::Big),
@@ -374,8 +422,12 @@ pub fn gen(seed: u64, tier: &str) -> Vec<String> {
                 push(&mut lines, entry, &b);
             } else {
                 let file = seed_file(entry, &mut rng);
-                let m = mutate(entry, &file, &mut rng);
-                push(&mut lines, entry, &m);
+                if i % 3 == 0 {
+                    push(&mut lines, entry, &file); // as written: a valid container, arbitrary payload
+                } else {
+                    let m = mutate(entry, &file, &mut rng);
+                    push(&mut lines, entry, &m);
+                }
             }
         }
     }
